@@ -16,6 +16,7 @@ import Hdl21Model.Lemmas.RoundTrip
 import Hdl21Model.Lemmas.Export
 import Hdl21Model.Props.C13
 import Hdl21Model.Props.C06
+import Hdl21Model.Lemmas.ResolveNF
 namespace Hdl21.Props.C11
 open Hdl21 Hdl21.Pkg
 
@@ -240,6 +241,23 @@ example : Shape exCtx exMod = true ∧
 example : exportTarget (importTarget [("a", 4), ("b", 2)] (.concat [.slice "a" 2 1, .sig "b"]))
         = .ok (.concat [.slice "a" 2 1, .sig "b"]) := by rfl
 
+
+/-! ## re-elaboration of what was exported: the resolver's output is a fixed point of the resolver -/
+
+/-- **A connection the elaborator has resolved is left alone when it is elaborated again** — which is what
+    `to_proto(from_proto(P)) = P` needs of the importer's connections (they are written back as `SliceResolver` left them: a
+    signal, a slice taken directly from a signal and not the whole of it, or a non-empty concatenation of those: `resolve_nf`),
+    for every nesting, width, step and sign of the expression they came from.  (Seed C11-r9-1 left a whole-signal slice standing
+    inside a concatenation: not a fixed point, and the second export differed.) -/
+theorem resolved_connection_is_a_fixed_point (fuel : Nat) (c r : SConn) (h : resolveSliceable fuel c = .ok r) :
+    ∃ f, resolveSliceable f r = .ok r :=
+  nf_fixed r ((resolve_nf fuel).2.2.1 c r h)
+
+example :
+    let c : SConn := .slice (.concat [.sig "a" 4, .sig "b" 4]) (.range (some 0) (some 6) none)
+    (match resolveSliceable 30 c with
+     | .ok r => (match resolveSliceable 30 r with | .ok r' => some (r'.size == r.size && r.exportable) | .error _ => none)
+     | .error _ => none) = some true := by decide +kernel
 
 /-! ## what the elaborator hands the exporter round-trips: the composed pass list (ModulePipe.lean) meets `module_roundtrip` -/
 section Pipeline
